@@ -41,15 +41,16 @@ def _spec(ctx, case, wrap):
         d = (x - 5.0) - b
         ctx.assume(h.disj([h.close(d, 0.0, 0.0), d >= pipeline.GAPP, -d >= pipeline.GAPP]))
     w = (lambda v, u: {"value": v, "units": u}) if wrap else (lambda v, u: v)
+    off = float(case.get("offset", 0.0))     # the whole problem moved down the temperature axis (sub-zero, whole-number temperatures)
     streams = [
-        {"zone": "Z1", "name": "H1", "t_supply": w(x, "degC"), "t_target": w(ctx.const(100.0), "degC"), "heat_flow": w(2 * (x - 100.0), "kW"),
+        {"zone": "Z1", "name": "H1", "t_supply": w(x + off, "degC"), "t_target": w(ctx.const(100.0 + off), "degC"), "heat_flow": w(2 * (x - 100.0), "kW"),
          "dt_cont": w(ctx.const(5.0), "degC"), "htc": w(ctx.const(1.0), "kW/m^2/K")},
-        {"zone": case.get("zone2", "Z1"), "name": "C1", "t_supply": w(ctx.const(60.0), "degC"), "t_target": w(ctx.const(160.0), "degC"),
+        {"zone": case.get("zone2", "Z1"), "name": "C1", "t_supply": w(ctx.const(60.0 + off), "degC"), "t_target": w(ctx.const(160.0 + off), "degC"),
          "heat_flow": w(ctx.const(300.0), "kW"), "dt_cont": w(ctx.const(5.0), "degC"), "htc": w(ctx.const(1.0), "kW/m^2/K")},
     ]
     utils = []
     if case.get("utils"):
-        utils = [{"name": "HP", "type": "Hot", "t_supply": w(ctx.const(250.0), "degC"), "t_target": w(ctx.const(250.0), "degC"), "heat_flow": w(ctx.const(0.0), "kW"),
+        utils = [{"name": "HP", "type": "Hot", "t_supply": w(ctx.const(250.0 + off), "degC"), "t_target": w(ctx.const(250.0 + off), "degC"), "heat_flow": w(ctx.const(0.0), "kW"),
                   "dt_cont": w(ctx.const(5.0), "degC"), "htc": w(ctx.const(1.0), "kW/m^2/K"), "price": w(ctx.const(40.0), "$/MWh")}]
     return {"streams": streams, "utilities": utils, "options": {}}
 
@@ -58,12 +59,25 @@ def _records(res):
     return service.result_view(res)["targets"]
 
 
-def _write_csv(path, rows, cols, units):
+SPELLINGS = ["repr of the float (150.0)", "shortest text: whole numbers without decimal point (150, -40)", "exponent form (1.5e+02)"]
+
+
+def _cell(v, spell):
+    if not isinstance(v, float):
+        return str(v)
+    if spell == 1 and v == int(v):
+        return str(int(v))
+    if spell == 2:
+        return "%.17e" % v
+    return repr(v)
+
+
+def _write_csv(path, rows, cols, units, spell=0):
     with open(path, "w", encoding="utf-8") as fh:
         fh.write(",".join(cols) + "\n")
         fh.write(",".join(units) + "\n")
         for r in rows:
-            fh.write(",".join(str(r[c]) for c in cols) + "\n")
+            fh.write(",".join(_cell(r[c], spell) for c in cols) + "\n")
 
 
 def body_channels(ctx, case):
@@ -94,22 +108,23 @@ def body_channels(ctx, case):
             pm.load(TargetInput.model_validate(plain_spec))
             pm._project_name = "P"
             ctx.require(service.same(_records(pm.target()), base, 1e-9), "validated model through PinchProblem gives the same targets")
-            # CSV bundle: directory and pair of files
-            cd = os.path.join(td, "P")
-            os.makedirs(cd)
-            scol = ["zone", "name", "t_supply", "t_target", "heat_flow", "dt_cont", "htc"]
-            _write_csv(os.path.join(cd, "streams.csv"), plain_spec["streams"], scol, ["", "", "degC", "degC", "kW", "degC", "kW/m^2/K"])
-            ucol = ["name", "type", "t_supply", "t_target", "heat_flow", "dt_cont", "htc", "price"]
-            with open(os.path.join(cd, "utilities.csv"), "w") as fh:
-                fh.write(",".join(ucol) + "\n" + ",,degC,degC,kW,degC,kW/m^2/K,$/MWh\n")
-            if not plain_spec["utilities"]:
-                pc = PinchProblem()
-                pc.load(cd)
-                ctx.require(service.same(_records(pc.target()), base, 1e-6), "CSV directory through PinchProblem gives the same targets")
-                pt = PinchProblem()
-                pt.load((os.path.join(cd, "streams.csv"), os.path.join(cd, "utilities.csv")))
-                pt._project_name = "P"
-                ctx.require(service.same(_records(pt.target()), base, 1e-6), "CSV file pair through PinchProblem gives the same targets")
+            # CSV bundle: directory and pair of files, the numbers written in every spelling of SPELLINGS
+            for spell in range(len(SPELLINGS)):
+                cd = os.path.join(td, f"P{spell}", "P")
+                os.makedirs(cd)
+                scol = ["zone", "name", "t_supply", "t_target", "heat_flow", "dt_cont", "htc"]
+                _write_csv(os.path.join(cd, "streams.csv"), plain_spec["streams"], scol, ["", "", "degC", "degC", "kW", "degC", "kW/m^2/K"], spell)
+                ucol = ["name", "type", "t_supply", "t_target", "heat_flow", "dt_cont", "htc", "price"]
+                with open(os.path.join(cd, "utilities.csv"), "w") as fh:
+                    fh.write(",".join(ucol) + "\n" + ",,degC,degC,kW,degC,kW/m^2/K,$/MWh\n")
+                if not plain_spec["utilities"]:
+                    pc = PinchProblem()
+                    pc.load(cd)
+                    ctx.require(service.same(_records(pc.target()), base, 1e-6), f"CSV directory through PinchProblem gives the same targets ({SPELLINGS[spell]})")
+                    pt = PinchProblem()
+                    pt.load((os.path.join(cd, "streams.csv"), os.path.join(cd, "utilities.csv")))
+                    pt._project_name = "P"
+                    ctx.require(service.same(_records(pt.target()), base, 1e-6), f"CSV file pair through PinchProblem gives the same targets ({SPELLINGS[spell]})")
     di = [r for r in base if r["name"] == "P/Direct Integration"]
     if di:
         ctx.note("Qh", di[0]["Qh"]); ctx.note("Qc", di[0]["Qc"])
@@ -234,10 +249,12 @@ def cases_sheets(tier, seed):
 
 
 FAMILIES = [
-    Family(name="channels", cases=lambda tier, seed: ([{"utils": False}] if tier == "quick" else [{"utils": False}, {"utils": True}, {"utils": False, "zone2": "Z2"}]),
+    Family(name="channels", cases=lambda tier, seed: ([{"utils": False}, {"utils": False, "offset": -160.0}] if tier == "quick"
+                                                    else [{"utils": False}, {"utils": True}, {"utils": False, "zone2": "Z2"}, {"utils": False, "offset": -160.0}, {"utils": False, "zone2": "Z2", "offset": -230.0}]),
            body=body_channels, functions=["pinch_analysis_service", "get_value", "PinchProblem.load", "PinchProblem.target", "get_problem_from_csv (concrete replay)"],
            files=FILES, bounds="one problem of two streams (optionally one utility / two zones) with one supply temperature a z3 real in [101,500], given as dictionary, as validated model "
-                               "and with value-with-unit numbers on the same path; JSON file, CSV directory, CSV pair and the PinchProblem wrapper on the concrete replay of path models",
+                               "and with value-with-unit numbers on the same path, also moved to sub-zero whole-number temperatures; JSON file, CSV directory, CSV pair (every cell spelling of: "
+                               "float repr / whole numbers without decimal point / exponent form) and the PinchProblem wrapper on the concrete replay of path models",
            assumptions=["pydantic stand-ins and identity curve cleaning during symbolic runs", "file channels (JSON/CSV) are exercised on concrete path models only; workbook channel not applicable",
                         "breakpoints equal or >= 0.25 K apart"],
            shim_modules=None, snap="micro", split_paths=6, validate_every=2, reach=["forms compared"]),
